@@ -183,6 +183,7 @@ type mutFact struct {
 }
 
 type event struct {
+	akind   string // for reads: alias | len | read | index | range (how the value read is used on the spot)
 	args    []argFact
 	kind    int
 	field   string
@@ -622,6 +623,8 @@ type walker struct {
 	params      map[types.Object]int
 	fresh       freshSet // access paths known to hold a private (deep) copy at this point
 	pendingArgs []argFact
+	hints       map[ast.Node]string // how the parent uses the value of an expression: len | range | index | alias
+	curKind     string
 	local       map[string]argFact // what a local variable was last assigned from (parameter-rooted, shared)
 }
 
@@ -690,7 +693,7 @@ func (a *analyzer) analyse(n *node) {
 		return
 	}
 	n.done = true
-	w := &walker{a: a, n: n, p: n.pkg, params: map[types.Object]int{}, fresh: freshSet{}, local: map[string]argFact{}}
+	w := &walker{a: a, n: n, p: n.pkg, params: map[types.Object]int{}, fresh: freshSet{}, local: map[string]argFact{}, hints: map[ast.Node]string{}}
 	if n.ftype != nil && n.ftype.Params != nil {
 		i := 0
 		for _, f := range n.ftype.Params.List {
@@ -725,7 +728,29 @@ func (a *analyzer) analyse(n *node) {
 }
 
 func (w *walker) emitAccess(field string, write bool, pos token.Pos, L lockset) {
-	w.n.events = append(w.n.events, event{kind: evAccess, field: field, write: write, pos: pos, held: L.canon()})
+	k := "write"
+	if !write {
+		k = w.curKind
+		if k == "" {
+			k = "read"
+		}
+	}
+	w.n.events = append(w.n.events, event{kind: evAccess, field: field, write: write, pos: pos, held: L.canon(), akind: k})
+}
+
+// hint: the parent construct uses the value of e as a whole in a particular way (len(e), range e, e[i], return e)
+func (w *walker) hint(e ast.Expr, kind string) {
+	for {
+		if p, ok := e.(*ast.ParenExpr); ok {
+			e = p.X
+			continue
+		}
+		break
+	}
+	switch e.(type) {
+	case *ast.SelectorExpr, *ast.CallExpr:
+		w.hints[e] = kind
+	}
 }
 
 func (w *walker) emitCall(ts []*node, isGo bool, pos token.Pos, L lockset) {
@@ -826,6 +851,9 @@ func (w *walker) stmt(s ast.Stmt, L *lockset) {
 		}
 	case *ast.ReturnStmt:
 		for _, e := range v.Results {
+			if _, ok := e.(*ast.SelectorExpr); ok {
+				w.hint(e, "alias") // the use is charged to the caller (returnsField)
+			}
 			w.expr(e, L, false)
 		}
 		w.noteReturn(v)
@@ -904,6 +932,7 @@ func (w *walker) stmt(s ast.Stmt, L *lockset) {
 		w.fresh = meet(f0, w.fresh)
 		*L = intersect(*L, lb)
 	case *ast.RangeStmt:
+		w.hint(v.X, "range")
 		w.expr(v.X, L, false)
 		if v.Tok == token.ASSIGN {
 			if v.Key != nil {
@@ -1168,17 +1197,20 @@ func (w *walker) expr(e ast.Expr, L *lockset, _ bool) {
 		w.expr(v.X, L, false)
 		switch sel.Kind() {
 		case types.FieldVal:
+			w.curKind = w.hints[v]
 			if f := w.a.fieldKey(w.p, v, false); f != "" {
 				w.emitAccess(f, false, v.Pos(), *L)
 			}
 			if k := w.a.objKey(w.p, v); k != "" {
 				w.emitAccess(k, false, v.Pos(), *L)
 			}
+			w.curKind = ""
 		case types.MethodVal, types.MethodExpr:
 			// method value mentioned outside call position
 			w.emitCall(w.a.callTargets(w.p, v), false, v.Pos(), *L)
 		}
 	case *ast.IndexExpr:
+		w.hint(v.X, "index")
 		w.expr(v.X, L, false)
 		w.expr(v.Index, L, false)
 	case *ast.IndexListExpr:
@@ -1261,6 +1293,9 @@ func (w *walker) call(c *ast.CallExpr, L *lockset) {
 				}
 			}
 			for _, a := range c.Args {
+				if id.Name == "len" || id.Name == "cap" {
+					w.hint(a, "len")
+				}
 				w.expr(a, L, false)
 			}
 			return
@@ -1302,11 +1337,17 @@ func (w *walker) call(c *ast.CallExpr, L *lockset) {
 				}
 			}
 		}
+		w.curKind = w.hints[c]
 		w.emitCall(w.a.callTargets(w.p, f), false, c.Pos(), *L)
+		w.curKind = ""
 	case *ast.FuncLit:
+		w.curKind = w.hints[c]
 		w.emitCall(w.a.callTargets(w.p, f), false, c.Pos(), *L)
+		w.curKind = ""
 	case *ast.Ident:
+		w.curKind = w.hints[c]
 		w.emitCall(w.a.callTargets(w.p, f), false, c.Pos(), *L)
+		w.curKind = ""
 	default:
 		w.expr(c.Fun, L, false)
 	}
@@ -1918,6 +1959,7 @@ type rowOut struct {
 	Cond  string `json:"cond"`
 	Field string `json:"field"`
 	Write bool   `json:"write"`
+	Kind  string `json:"kind"`
 	Held  []held `json:"held"`
 	Sites []site `json:"sites"`
 }
@@ -1934,11 +1976,11 @@ func trimKey(k string) string {
 	return strings.ReplaceAll(k, modPath, "")
 }
 
-func (c *collector) record(entry string, multi bool, cond string, n *node, field string, write bool, eff lockset, pos token.Pos, chain []string) {
-	rk := entry + "|" + field + "|" + fmt.Sprint(write) + "|" + eff.key()
+func (c *collector) record(entry string, multi bool, cond string, n *node, field string, write bool, akind string, eff lockset, pos token.Pos, chain []string) {
+	rk := entry + "|" + field + "|" + fmt.Sprint(write) + "|" + akind + "|" + eff.key()
 	r := c.rows[rk]
 	if r == nil {
-		r = &rowOut{Entry: entry, Multi: multi, Cond: cond, Field: field, Write: write, Held: eff}
+		r = &rowOut{Entry: entry, Multi: multi, Cond: cond, Field: field, Write: write, Kind: akind, Held: eff}
 		c.rows[rk] = r
 		c.order = append(c.order, rk)
 	}
@@ -1967,7 +2009,7 @@ func (c *collector) visit(entry string, multi bool, cond string, n *node, ctx lo
 		eff := append(ctx.clone(), ev.held...).canon()
 		switch ev.kind {
 		case evAccess:
-			c.record(entry, multi, cond, n, ev.field, ev.write, eff, ev.pos, chain)
+			c.record(entry, multi, cond, n, ev.field, ev.write, ev.akind, eff, ev.pos, chain)
 		case evCall:
 			for _, t := range ev.targets {
 				// the callee writes through a parameter: here a shared object was passed for it
@@ -1980,7 +2022,7 @@ func (c *collector) visit(entry string, multi bool, cond string, n *node, ctx lo
 						k = ev.args[f.param].key
 					}
 					if strings.HasPrefix(k, "object:") {
-						c.record(entry, multi, cond, n, k, true, eff, ev.pos, append(append([]string(nil), chain...), trimKey(t.key)))
+						c.record(entry, multi, cond, n, k, true, "write", eff, ev.pos, append(append([]string(nil), chain...), trimKey(t.key)))
 					}
 				}
 				if ev.isGo {
@@ -2123,10 +2165,10 @@ func main() {
 		for wk := range writtenObj {
 			o := ownerOfKey(wk)
 			if o == tk || a.reachKey(tk)[o] {
-				rk := r.Entry + "|" + wk + "|false|" + lockset(r.Held).key()
+				rk := r.Entry + "|" + wk + "|false|read|" + lockset(r.Held).key()
 				nr := col.rows[rk]
 				if nr == nil {
-					nr = &rowOut{Entry: r.Entry, Multi: r.Multi, Cond: r.Cond, Field: wk, Write: false, Held: r.Held}
+					nr = &rowOut{Entry: r.Entry, Multi: r.Multi, Cond: r.Cond, Field: wk, Write: false, Kind: "read", Held: r.Held}
 					col.rows[rk] = nr
 					expanded = append(expanded, rk)
 				}
